@@ -10,6 +10,7 @@
 #include <nitro/options/parser.hpp>
 
 #include <iostream>
+#include <memory>
 #include <sstream>
 #include <streambuf>
 
@@ -189,7 +190,9 @@ struct SinkBuf : std::streambuf
     }
 };
 
-static const char* STREAMS[] = { "fresh", "prior1", "prior79", "prior200", "prior79+nl", "prior200+nl", "nonseekable" };
+static const char* STREAMS[] = { "fresh", "prior1", "prior79", "prior200", "prior79+nl", "prior200+nl", "nonseekable",
+                                 "fresh-after-a-parse", "fresh-from-the-moved-parser" };
+static const int NSTREAMS = 9;
 
 static std::string usage_to(nitro::options::parser& p, int stream)
 {
@@ -236,6 +239,30 @@ static std::pair<std::string, std::string> usage_pair(const UDecl& d, int stream
     nitro::options::parser p(d.app, d.about);
     build(p, d);
     auto fresh = usage_to(p, 0);
+    if (stream == 7)
+    {
+        // the usual --help / error path: the parser has parsed (here: an empty command line, whatever the outcome)
+        const char* argv[] = { "prog" };
+        try
+        {
+            p.parse(1, argv);
+        }
+        catch (std::exception&)
+        {
+        }
+        return { fresh, usage_to(p, 0) };
+    }
+    if (stream == 8)
+    {
+        // the parser object is moved (e.g. returned from a function) and the old one destroyed; the same option objects
+        // are written before and after the move (the synopsis orders long toggles by object address)
+        std::unique_ptr<nitro::options::parser> hp(new nitro::options::parser(d.app, d.about));
+        build(*hp, d);
+        auto before = usage_to(*hp, 0);
+        nitro::options::parser moved(std::move(*hp));
+        hp.reset();
+        return { before, usage_to(moved, 0) };
+    }
     auto other = stream ? usage_to(p, stream) : fresh;
     return { fresh, other };
 }
@@ -631,7 +658,7 @@ int main(int argc, char** argv)
     bool asan = a.asan(), thorough = a.thorough();
     sh.walk = [&](mc::Ctx& ctx) {
         auto one = [&](const UDecl& d) {
-            for (int stream = 0; stream < 7; stream++)
+            for (int stream = 0; stream < NSTREAMS; stream++)
             {
                 long idx = ctx.next;
                 ctx.each(
